@@ -360,8 +360,10 @@ class StreamEncoder(stream.PipelinedActor):
         # Datapath
         for i in range(nwords):
             self.comb += [
-                encoder.k[i].eq(sink.k[i]),
-                encoder.d[i].eq(sink.d[8*i:8*(i+1)]),
+                # Encode D.0.0 (disparity neutral) while there is no valid token: the encoder runs on
+                # pipe_ce, so an idle sink payload must not move the running disparity.
+                encoder.k[i].eq(sink.valid & sink.k[i]),
+                encoder.d[i].eq(Replicate(sink.valid, 8) & sink.d[8*i:8*(i+1)]),
                 source.data[10*i:10*(i+1)].eq(encoder.output[i])
             ]
 
